@@ -85,6 +85,10 @@ structure World (c : Codec) where
   `return PAYLOAD_NEEDS_INPUT` of `HttpPayloadParser.feed_data` clears `_paused` (the repair of the
   stale-pause finding); `false` = only the mid-chunk return does (the code before the repair) -/
   clearOnNeeds : Bool := false
+  /-- behaviour flag (probed, `Gen.C09.waitRechecksException`): `StreamReader._wait()` re-checks
+  `_exception` after a normal wake-up (data / eof / chunk end) and raises it; `false` = the code
+  before that repair, where a resumed reader never looks at `_exception` again -/
+  waitRechecks : Bool := false
   -- transport and protocol
   trPaused : Bool := false       -- transport.pause_reading() in effect
   connected : Bool := true       -- protocol.transport is not None
@@ -151,8 +155,8 @@ def bsize (buf : List Bytes) : Nat := (buf.map List.length).sum
 
 /-- `World` for a reader created with `limit` (StreamReader.__init__) -/
 def World.init (c : Codec) (limit : Nat) (framing : Framing) (length : Nat) (compressed sniff checkEof lax : Bool)
-    (maxTrailers : Nat := 128) (clearOnNeeds : Bool := false) : World c :=
-  { clearOnNeeds := clearOnNeeds, limit := limit, framing := framing, length := length, compressed := compressed, sniff := sniff,
+    (maxTrailers : Nat := 128) (clearOnNeeds : Bool := false) (waitRechecks : Bool := false) : World c :=
+  { clearOnNeeds := clearOnNeeds, waitRechecks := waitRechecks, limit := limit, framing := framing, length := length, compressed := compressed, sniff := sniff,
     checkEof := checkEof, lax := lax, maxTrailers := maxTrailers,
     low := limit, high := limit * 2, highChunks := max 4 (limit / 16), lowChunks := max 4 (limit / 16) / 2 }
 
@@ -540,7 +544,12 @@ def reqRead (w : World c) (cms : Nat) : World c × Out :=
   else
     match (if w.reqParked then w.wakeExc else none) with
     | some e => ({ w with reqParked := false, wakeExc := none }, .err e)   -- woken by set_exception
-    | none => reqLoop cms 1099511627776 w
+    | none =>
+      -- resumed from `_wait()` by a normal wake-up: the repaired `_wait` raises a recorded exception
+      -- here; the code before the repair goes on (reads what is buffered, or parks again)
+      if w.reqParked && w.waitRechecks && w.exc.isSome then
+        ({ w with reqParked := false }, .err (w.exc.getD .assertion))
+      else reqLoop cms 1099511627776 w
 
 inductive Op
   | deliver (seg : Bytes)
